@@ -1,5 +1,5 @@
-(* C17/Properties.v — property theorems only. Each is closed by a lemma of C17/Proofs.v or C17/ProofsCD.v. *)
-From Relic Require Import Base.Prelude Base.Enc Generated.C17_gen C17.Model C17.Bytes C17.Proofs C17.ProofsCD.
+(* C17/Properties.v — property theorems only. Each is closed by a lemma of C17/Proofs.v, C17/ProofsCD.v or C17/ProofsW.v. *)
+From Relic Require Import Base.Prelude Base.Enc Generated.C17_gen C17.Model C17.Bytes C17.Proofs C17.ProofsCD C17.ProofsW.
 
 (* 0. the Go wire structs have the APPNOTE field layouts and the length constants match them *)
 Theorem wire_layouts_are_appnote :
@@ -69,3 +69,88 @@ Theorem parse_build : forall ms mode, classK ms mode ->
     /\ views (d_files d) (map sized_of ms) = sp_view ms (plain_opts mode)
     /\ exists cd eod, get_original (rd_bytes z) d false = Ok (cd, eod) /\ cd ++ eod = zdrop (zlen (locals ms)) z.
 Proof. exact C17.ProofsCD.parse_build_thm. Qed.
+
+(* 6. the writer: an archive written from scratch by NewFile ... WriteDirectory(w, w, force) is byte for byte the APPNOTE
+      archive of its members (24-byte descriptors / version 45 when useDesc, ZIP64 end records exactly when forced or when a
+      descriptor member exists), lies in class K, and therefore is read back identically (5.) — including the empty member
+      with a 24-byte descriptor that relic used to misread *)
+Theorem writer_output_is_appnote : forall cs force,
+  Forall call_ok cs -> zlen cs < 65535 ->
+  zlen (locals (map nf_member cs)) + zlen (centrals (pairs (map nf_member cs))) < 4294967295 ->
+  fresh_archive cs force = build (map nf_member cs) (plain_opts (fresh_mode cs force)).
+Proof. exact C17.ProofsW.fresh_archive_appnote. Qed.
+Theorem writer_output_in_classK : forall cs force,
+  Forall call_ok cs -> zlen cs < 65535 ->
+  zlen (locals (map nf_member cs)) + zlen (centrals (pairs (map nf_member cs))) < 4294967295 - 98 ->
+  classK (map nf_member cs) (fresh_mode cs force).
+Proof. exact C17.ProofsW.fresh_archive_in_classK. Qed.
+Theorem writer_reread : forall cs force,
+  Forall call_ok cs -> zlen cs < 65535 ->
+  zlen (locals (map nf_member cs)) + zlen (centrals (pairs (map nf_member cs))) < 4294967295 - 98 ->
+  let z := fresh_archive cs force in
+  let ms := map nf_member cs in
+  exists d, read_zip (rd_bytes z) (zlen z) = Ok d
+    /\ d_files d = parsed (pairs ms) /\ d_dirloc d = zlen (locals ms)
+    /\ (forall md, total_sizes md (rd_bytes z) 0 (d_files d) = Ok (map sized_of ms))
+    /\ views (d_files d) (map sized_of ms) = sp_view ms (plain_opts (fresh_mode cs force))
+    /\ exists cd eod, get_original (rd_bytes z) d false = Ok (cd, eod) /\ cd ++ eod = zdrop (zlen (locals ms)) z.
+Proof. exact C17.ProofsW.writer_reread_thm. Qed.
+
+(* 7. where the FULL statement of C17 fails for the code as it is: concrete valid archives (all replayed on the real code
+      by checks/c17.py; each is a known finding).  sizes_of md z = Read + GetTotalSize of every member in mode md. *)
+Theorem descriptor_without_signature_refuted :
+  exists ms, sizes_of Random (build ms (plain_opts 0)) = Err E_DDSIG.
+Proof. exact C17.ProofsCD.descriptor_without_signature_refuted. Qed.
+Theorem archive_comment_refuted :
+  exists ms c, let z := build ms (with_comment c) in read_zip (rd_bytes z) (zlen z) = Err E_NOCD.
+Proof. exact C17.ProofsCD.archive_comment_refuted. Qed.
+Theorem prefix_refuted :
+  exists ms p, let z := build ms (with_prefix p) in read_zip (rd_bytes z) (zlen z) = Err E_NOEND.
+Proof. exact C17.ProofsCD.prefix_refuted. Qed.
+Theorem writedirectory_end_records_refuted :
+  exists ms mode d cd eod, let z := build ms (plain_opts mode) in
+    read_zip (rd_bytes z) (zlen z) = Ok d /\ write_directory (d_files d) (d_dirloc d) false false false = Ok (cd, eod) /\
+    cd ++ eod <> zdrop (d_dirloc d) z.
+Proof. exact C17.ProofsCD.writedirectory_end_records_refuted. Qed.
+Theorem stream_directory_order_refuted :
+  exists ms ord, is_ok (sizes_of Random (build ms (with_order ord))) = true /\ sizes_of Stream (build ms (with_order ord)) = Err E_SEEK.
+Proof. exact C17.ProofsCD.stream_directory_order_refuted. Qed.
+Theorem rewrite_contiguity_refuted :
+  exists ms g d, let z := build ms (with_gap g) in
+    read_zip (rd_bytes z) (zlen z) = Ok d /\
+    exists f size, hd_error (d_files d) = Some f /\ sizes_of Random z = Ok [size] /\
+      e_offset (hd f (fst (add_file [] 0 f (s_total size)))) <> e_offset f.
+Proof. exact C17.ProofsCD.rewrite_contiguity_refuted. Qed.
+Theorem descriptor24_empty_version20_refuted :
+  exists ms s, sizes_of Random (build ms (plain_opts 0)) = Ok [s] /\ s_ddlen s = 16 /\ zlen (sp_desc (hd (wm 0 [] 0 DNone 0) ms)) = 24.
+Proof. exact C17.ProofsCD.descriptor24_empty_version20_refuted. Qed.
+Theorem stream_descriptor16_empty_version45_refuted :
+  exists ms, sizes_of Random (build ms (plain_opts 0)) = Ok (map sized_of ms) /\ sizes_of Stream (build ms (plain_opts 0)) = Err E_SEEK.
+Proof. exact C17.ProofsCD.stream_descriptor16_empty_version45_refuted. Qed.
+
+(* non-vacuity: class K is inhabited by archives with every supported feature, and the conclusions are computed on them *)
+Definition ex_members : list smember :=
+  [mkMem [97] [] [] [] 20 20 0 0 0 0 11 [1; 2; 3] 3 0 0 0 DNone false false false false false;         (* stored, no descriptor *)
+   mkMem [98] [] [] [33] 20 20 2048 8 0 0 12 [9] 1 0 0 0 D16 false false false false false;            (* 16-byte descriptor, comment, UTF-8 flag *)
+   mkMem [99] [] [] [] 45 45 0 0 0 0 13 [] 0 0 0 0 D24 false false false false false;                  (* empty member, 24-byte descriptor, version 45 *)
+   mkMem [100] [] [202; 254; 0; 0] [] 45 45 0 0 0 0 14 [5; 6] 2 0 0 0 DNone true true false true true; (* ZIP64 extra: usize and offset only, after another record *)
+   mkMem [100; 47] [] [] [] 20 20 0 0 0 0 0 [] 0 0 16 0 DNone false false false false false].          (* directory entry *)
+Example classK_inhabited : classK ex_members 0 /\ classK ex_members 1 /\ classK ex_members 2 /\ classK [] 0.
+Proof.
+  assert (W : wf_extra [202; 254; 0; 0]) by (apply (wf_extra_rec 65226 [] []); [lia|lia|cbn; lia|constructor]).
+  unfold classK, pairs, ex_members, local_ok, central_ok, desc_ok.
+  repeat split; try (vm_compute; congruence); try (repeat constructor; vm_compute; intuition congruence); auto;
+    repeat (constructor; [repeat split; try (vm_compute; congruence); try (intros _ _; exact W); try (intros; exact W); auto|]); try constructor.
+Qed.
+Example parse_build_computed :
+  let z := build ex_members (plain_opts 2) in
+  match read_zip (rd_bytes z) (zlen z) with
+  | Ok d => views (d_files d) (map sized_of ex_members) = sp_view ex_members (plain_opts 2)
+            /\ total_sizes Stream (rd_bytes z) 0 (d_files d) = Ok (map sized_of ex_members)
+  | _ => False
+  end.
+Proof. vm_compute. split; reflexivity. Qed.
+Example writer_hypotheses_satisfiable :
+  let cs := [mkCall [97] [] [] 0 0 0 0 0 true; mkCall [98] [254; 202; 0; 0] [1; 2] 2 7 0 0 0 false] in
+  Forall call_ok cs /\ fresh_archive cs false = build (map nf_member cs) (plain_opts 1).
+Proof. split; [repeat constructor; vm_compute; congruence|vm_compute; reflexivity]. Qed.
